@@ -65,6 +65,7 @@ func loadKnown() []KnownFinding {
 }
 
 type replayVec struct {
+	Sched  []int             `json:"sched,omitempty"`
 	Ints   map[string]uint64 `json:"ints"`
 	Case   []int             `json:"case"`
 	Entry  string            `json:"entry"`
@@ -121,6 +122,7 @@ func makeVec(entry string, caseID int, v sym.Violation) replayVec {
 		rv.Ints[k] = n
 	}
 	rv.Inputs = prettyInputs(v)
+	rv.Sched = v.Sched
 	return rv
 }
 
@@ -467,7 +469,7 @@ func cmdCheck(args []string) {
 		}
 		if *noReplay {
 			for _, f := range found {
-				fmt.Printf("FOUND (not replayed) entry=%s case=%d tag=%s known=%q %v\n", f.run.Entry, f.c, f.v.Tag, f.v.Known, prettyInputs(f.v))
+				fmt.Printf("FOUND (not replayed) entry=%s case=%d tag=%s known=%q %v %s\n", f.run.Entry, f.c, f.v.Tag, f.v.Known, prettyInputs(f.v), f.v.Msg)
 			}
 			fail2("native replay skipped")
 		} else {
